@@ -49,10 +49,30 @@ class HookTap:
             return tap._orig(self_, cl, wrapper)
 
         cattrs.Converter.register_structure_hook = patched
+        # predicate-based registration goes through the same recorder
+        self._orig_func = cattrs.Converter.register_structure_hook_func
+
+        def patched_func(self_, check_func, func):
+            idx = len(tap.registered)
+            tap.registered.append(("<predicate %s>" % getattr(check_func, "__name__", "?"), getattr(func, "__name__", "?")))
+
+            def wrapper(obj, typ, _f=func, _i=idx):
+                try:
+                    r = _f(obj, typ)
+                except Exception as e:  # noqa
+                    tap.events[(_i, "raise:" + type(e).__name__)] += 1
+                    raise
+                tap.events[(_i, type(r).__name__)] += 1
+                return r
+
+            return tap._orig_func(self_, check_func, wrapper)
+
+        cattrs.Converter.register_structure_hook_func = patched_func
         return self
 
     def __exit__(self, *a):
         self._cattrs.Converter.register_structure_hook = self._orig
+        self._cattrs.Converter.register_structure_hook_func = self._orig_func
 
     def table(self):
         out = collections.defaultdict(dict)
@@ -120,7 +140,7 @@ class HookCoverage:
 
 
 class Py:
-    def __init__(self, pkg_root, mm, tap=False):
+    def __init__(self, pkg_root, mm, tap=False, make_converter=True):
         self.mm = mm
         self.pkg_root = pkg_root
         if pkg_root not in sys.path:
@@ -138,7 +158,10 @@ class Py:
         self.cv = importlib.import_module("lsprotocol.converters")
         assert self.T.__file__.startswith(pkg_root), (self.T.__file__, pkg_root)
         self.tap = None
-        if tap:
+        self.conv = None
+        if not make_converter:
+            pass  # the caller decides which converter is the FIRST one of this process
+        elif tap:
             self.tap = HookTap()
             with self.tap:
                 self.conv = self.cv.get_converter()
